@@ -18,6 +18,18 @@ func showV(v version.Version) string {
 
 func init() {
 	ops["vcmp"] = func(a []string) string { return sgn(version.Compare(mkv(a, 0), mkv(a, 3))) }
+	// vcmptext a b: both texts parsed, then compared - "rejected" when either is refused
+	ops["vcmptext"] = func(a []string) string {
+		x, err := version.Parse(arg(a, 0))
+		if err != nil {
+			return "rejected"
+		}
+		y, err := version.Parse(arg(a, 1))
+		if err != nil {
+			return "rejected"
+		}
+		return sgn(version.Compare(x, y))
+	}
 	ops["vless"] = func(a []string) string {
 		return showBool(version.Slice{mkv(a, 0), mkv(a, 3)}.Less(0, 1))
 	}
